@@ -3,7 +3,8 @@ package rules
 // C19 — replication state lookup by time terminates with the first state at or after t.
 //
 // Files: c19.go (registration, sensitivity suite, layout table, model), c19_scan.go and c19_cycles.go (M1, M2: loops and
-// neighbour scans, decided on the CFG), c19_order.go (M6: classification of probed states by time), c19_exits.go (one-line predicates looked through,
+// neighbour scans, decided on the CFG), c19_order.go, c19_order2.go, c19_roles.go (M6: classification of states by time in the binary search, its
+// caller and the lower-bound finder), c19_complete.go (M7: completeness of the lower-bound finder), c19_exits.go (one-line predicates looked through,
 // loops described by their exits), c19_interp.go (abstract evaluator), c19_eval.go (M3–M5: decision and
 // formatting functions evaluated over their finite abstract domain), c19_variants.go (behaviour-preserving variants).
 //
@@ -56,10 +57,12 @@ func init() {
 			"(M4) changeset state off-by-one, evaluated: the current state reports the parsed `sequence:` value +1 (and returns that number), a numbered state reports the number requested. " +
 			"(M5) evaluated: each lookup and its package-level delegate calls the search exactly once with the caller's ctx and timestamp, returns the state found together with K(state.SeqNum) of its own kind, propagates the error; the descriptor's functions request the current/numbered state files of the lookup's own kind on the lookup's own datasource (the default datasource for the delegates); the minimum sequence number is a constant >= 1. " +
 			"(M6) in the binary-search loop the probed state is classified by time as the result demands. Read off the code: every success return reachable from the loop gives the upper bound, the lower bound is never returned, so the upper bound is the candidate answer (must be at or after t) and the lower bound is exclusive (must be strictly before t). For each of the three orderings of the probed state's timestamp and the query time (<, ==, >) the CFG is walked from the probe with every comparison of the two instants decided (After/Before/Equal/Compare of time.Time in any spelling, negations, inverted or swapped branches, switch forms, one-line predicates): a state before t becomes the lower and never the upper bound, a state exactly at t or after t becomes the upper and never the lower bound (a state written exactly at t that becomes the lower bound is lost: the lookup answers with the next one). " +
+			"M6 also covers the code around the loop, with roles taken from dataflow (caller = the function handing the two bounds to the binary search, finder = the function whose results the caller assigns to both bounds at once): in the caller, for every value the lower-bound variable is given (the minimum state, the finder's result), `return lower` is unreachable when lower is before t and the binary search is unreachable when lower is at or after t; in the finder a probed state before t never becomes or is handed back as the upper bound, a probed state at or after t becomes the upper bound (or leaves through an answer exit), and a state exactly at t reaches the same updates and returns as a state after t. " +
+			"(M7) the finder, which runs when the minimum state file is missing, is complete: after a probe that found no file the cursor moves by single steps only (narrow-on-missing), and an exit that concludes that nothing lower qualifies (a success return after a probe that found no file, returns-upper; a probed state at or after t handed back as first result, returns-probed) is accepted only for an exhaustive ascending scan (every cursor write in the loop a +1 step; for returns-upper the cursor has reached the upper bound). The pinned tree bisects on missing files and violates all three constructs: that is a known finding (known_findings.jsonl), correct only when the missing files form a prefix of the directory; any further site is reported under another construct and fails. " +
 			"The verdicts do not depend on how the code is cut into helpers, on if/switch/early-return form, on local names, named constants or statement order. " +
-			"NOT decided: the logarithmic request bound, which state is returned for which timestamp beyond M6 (the classification of states by the bound-finding loop and of the initial bounds, where the lower bound is sometimes returned as the answer and sometimes exclusive so that no inclusive/exclusive reading can be taken from the code; the edge-case returns for adjacent sequence numbers; queries before the first state), the bound-finding loop beyond M1, monotonicity of server timestamps, HTTP transport behaviour, parsing of malformed state files, the decoding of interval state files (evaluation stops at their line loop), sequence numbers of 10^9 and more.",
+			"NOT decided: the logarithmic request bound, which state is returned for which timestamp beyond M6/M7 (states with equal timestamps, non-monotone server timestamps), termination of the finder beyond M1, monotonicity of server timestamps, HTTP transport behaviour, parsing of malformed state files, the decoding of interval state files (evaluation stops at their line loop), sequence numbers of 10^9 and more.",
 		Assumptions: []string{"go/types, go/cfg (x/tools v0.29.0)", "tables/replication.json is the planet server's layout", "the abstract evaluator of rules/c19_interp.go implements the semantics of the Go subset it accepts (anything outside it is reported as undecided); fmt.Sprintf, strconv formatting and time.Parse of the checker's Go toolchain are the ones the library is built with (they are applied to the library's constants and the table's samples; the library itself is neither compiled nor run)", "a function of the package that makes exactly one state fetch outside any loop with an unmodified parameter as sequence number is a fetch of that argument (its error handling is not part of M2)"},
-		LevelText:   "Necessary conditions of termination and of the planet layout. Structural (CFG, guard facts, integer normal form of comparisons): loop conditions depend on what their bodies vary; neighbour scans start next to the middle, step the probed variable once after the probe, are bounded strictly by the bound they walk towards, stop at the first state found, and an iteration that finds nothing returns the upper bound. By exhaustive evaluation over a finite abstract domain: URLs, Dir values, timestamp layouts, the 404 decision and status propagation equal the external layout table; the changeset off-by-one correction; each lookup serves its own kind on its own datasource. Structural, over the three orderings of probed timestamp and query time: the binary search moves its exclusive lower bound only to states strictly before t and its returned upper bound only to states at or after t. Which state the bound-finding phase and the edge cases return, and the logarithmic bound, are not decided.",
+		LevelText:   "Necessary conditions of termination and of the planet layout. Structural (CFG, guard facts, integer normal form of comparisons): loop conditions depend on what their bodies vary; neighbour scans start next to the middle, step the probed variable once after the probe, are bounded strictly by the bound they walk towards, stop at the first state found, and an iteration that finds nothing returns the upper bound. By exhaustive evaluation over a finite abstract domain: URLs, Dir values, timestamp layouts, the 404 decision and status propagation equal the external layout table; the changeset off-by-one correction; each lookup serves its own kind on its own datasource. Structural, over the three orderings of probed timestamp and query time: the binary search moves its exclusive lower bound only to states strictly before t and its returned upper bound only to states at or after t. The same classification is checked in the caller (lower returned only when at or after t, binary search entered only when before t) and in the lower-bound finder; the finder's completeness over missing files is a rule of its own whose violation on the pinned tree is recorded as a known finding. The logarithmic bound is not decided.",
 		LevelNote:   "Trusts the Go type checker (constant evaluation, callee resolution), go/cfg, the layout table, the abstract evaluator (c19_interp.go) and fmt/strconv/time.Parse for evaluating constants. Static call reachability inside package replication (function references, including inside closures). URL digit groups are checked on 10 sample numbers below 10^9, not symbolically.",
 		Technique:   "loop-variance analysis over guard facts; role-derived scan model decided on the CFG (three-valued evaluation of branch conditions under `state == nil` valuations, linear normal form of comparisons, parameters read as caller arguments); abstract evaluation (path-exploring interpreter over go/types-resolved syntax, opaque values with ±constant identity) of formatting and decision functions against an external layout table",
 		DesignRef:   "DESIGN.md §5 C19, Appendix D; ROBUSTNESS.md",
@@ -70,6 +73,7 @@ func init() {
 			{ID: "M4", Floor: 2, Doc: "changeset state off-by-one, by evaluation: current state reports the parsed sequence +1, numbered state reports the requested number", Run: c19M4},
 			{ID: "M5", Floor: 16, Doc: "the four …StateAt lookups and their package-level delegates, by evaluation: one search with the caller's arguments, own kind and own datasource, minimum >= 1, result returned with its own number", Run: c19M5},
 			{ID: "M6", Floor: 2, Doc: "the binary search classifies a probed state by time as its result demands: only a state strictly before t becomes the exclusive lower bound, a state at or after t becomes the upper bound (the value returned), decided for the three orderings of the two instants", Run: c19M6},
+			{ID: "M7", Floor: 3, Doc: "the lower-bound search run when the minimum state file is missing is complete: after a probe that found no file the cursor moves by single steps only, and an exit that concludes nothing lower qualifies is reached only by an exhaustive ascending scan (violated on the pinned tree: known finding)", Run: c19M7},
 		},
 		Mutants: c19Mutants,
 		Benign:  c19Benign,
@@ -118,6 +122,18 @@ var c19Mutants = []core.Mutant{
 	{Name: "m6-equal-becomes-lower-compare", File: "replication/search.go", Find: "\t\tif timestamp.After(split.Timestamp) {\n\t\t\tlower = split\n\t\t} else {\n\t\t\tupper = split\n\t\t}\n", Replace: "\t\tif timestamp.Compare(split.Timestamp) >= 0 {\n\t\t\tlower = split\n\t\t} else {\n\t\t\tupper = split\n\t\t}\n", ExpectRule: "M6", ExpectConstruct: "order@findInRange lower"},
 	{Name: "m6-branches-swapped", File: "replication/search.go", Find: "\t\tif timestamp.After(split.Timestamp) {\n\t\t\tlower = split\n\t\t} else {\n\t\t\tupper = split\n\t\t}\n", Replace: "\t\tif timestamp.After(split.Timestamp) {\n\t\t\tupper = split\n\t\t} else {\n\t\t\tlower = split\n\t\t}\n", ExpectRule: "M6", ExpectConstruct: "order@findInRange upper"},
 	{Name: "m6-equal-updates-nothing", File: "replication/search.go", Find: "\t\tif timestamp.After(split.Timestamp) {\n\t\t\tlower = split\n\t\t} else {\n\t\t\tupper = split\n\t\t}\n", Replace: "\t\tif timestamp.After(split.Timestamp) {\n\t\t\tlower = split\n\t\t} else if split.Timestamp.After(timestamp) {\n\t\t\tupper = split\n\t\t}\n", ExpectRule: "M6", ExpectConstruct: "order@findInRange upper"},
+	// M6 outside the binary-search loop (the first two are the defects repaired by a0304e9 and 580c050)
+	{Name: "m6-finder-equal-is-lower-prefix", File: "replication/search.go", Find: "lower != nil && !timestamp.After(lower.Timestamp)", Replace: "lower != nil && lower.Timestamp.After(timestamp)", ExpectRule: "M6", ExpectConstruct: "order@findBound lower"},
+	{Name: "m6-caller-adjacent-edge-prefix", File: "replication/search.go", Find: "\tif !timestamp.After(lower.Timestamp) {\n\t\t// the lowest state is already at or after the timestamp.\n\t\treturn lower, nil\n\t}\n", Replace: "\tif lower.SeqNum+1 >= upper.SeqNum {\n\t\treturn lower, nil // edge case if there are only one or two sequence numbers\n\t}\n", ExpectRule: "M6", ExpectConstruct: "order@searchTimestamp answer"},
+	{Name: "m6-finder-equal-is-lower-before", File: "replication/search.go", Find: "lower != nil && !timestamp.After(lower.Timestamp)", Replace: "lower != nil && timestamp.Before(lower.Timestamp)", ExpectRule: "M6", ExpectConstruct: "order@findBound lower"},
+	{Name: "m6-finder-before-becomes-upper", File: "replication/search.go", Find: "lower != nil && !timestamp.After(lower.Timestamp)", Replace: "lower != nil && timestamp.After(lower.Timestamp)", ExpectRule: "M6", ExpectConstruct: "order@findBound upper"},
+	{Name: "m6-finder-never-upper", File: "replication/search.go", Find: "lower != nil && !timestamp.After(lower.Timestamp)", Replace: "lower != nil && lower.SeqNum == 0", ExpectRule: "M6", ExpectConstruct: "order@findBound upper"},
+	{Name: "m6-caller-guard-removed", File: "replication/search.go", Find: "\tif !timestamp.After(lower.Timestamp) {\n\t\t// the lowest state is already at or after the timestamp.\n\t\treturn lower, nil\n\t}\n", Replace: "", ExpectRule: "M6", ExpectConstruct: "order@searchTimestamp enter"},
+	{Name: "m6-caller-guard-strict", File: "replication/search.go", Find: "\tif !timestamp.After(lower.Timestamp) {\n\t\t// the lowest state is already at or after the timestamp.\n\t\treturn lower, nil\n\t}\n", Replace: "\tif lower.Timestamp.After(timestamp) {\n\t\treturn lower, nil\n\t}\n", ExpectRule: "M6", ExpectConstruct: "order@searchTimestamp enter"},
+	{Name: "m6-caller-guard-inverted", File: "replication/search.go", Find: "\tif !timestamp.After(lower.Timestamp) {\n\t\t// the lowest state is already at or after the timestamp.\n\t\treturn lower, nil\n\t}\n", Replace: "\tif timestamp.After(lower.Timestamp) {\n\t\treturn lower, nil\n\t}\n", ExpectRule: "M6", ExpectConstruct: "order@searchTimestamp answer"},
+	// M7 (the pinned tree itself violates M7 under the three known constructs; these add further sites)
+	{Name: "m7-second-narrowing-site", File: "replication/search.go", Find: "\t\tlowerID = newID\n", Replace: "\t\tlowerID = newID\n\t\tif lowerID < upper.SeqNum/4 {\n\t\t\tlowerID = upper.SeqNum / 4\n\t\t}\n", ExpectRule: "M7", ExpectConstruct: "narrow-on-missing@findBound#2"},
+	{Name: "m7-second-give-up", File: "replication/search.go", Find: "\t\t// no lower yet, so try a higher id (binary search wise)\n", Replace: "\t\tif lowerID > 1000 {\n\t\t\treturn upper, upper, nil\n\t\t}\n\t\t// no lower yet, so try a higher id (binary search wise)\n", ExpectRule: "M7", ExpectConstruct: "give-up@findBound returns-upper#2"},
 	// M3
 	{Name: "m3-format-two-digit-leaf", File: "replication/changesets.go", Find: "%03d/%03d/%03d", Replace: "%03d/%03d/%02d", ExpectRule: "M3", ExpectConstruct: "url@(*Datasource).ChangesetState [state]"},
 	{Name: "m3-level2-modulus", File: "replication/interval.go", Find: "(n%1000000)/1000", Replace: "(n%100000)/1000", ExpectRule: "M3", ExpectConstruct: "url@(*Datasource).MinuteState [state]"},
